@@ -53,6 +53,16 @@ def scenarios(r, upper):
                      "insert into s3.out1 with c as (select ca, cb, cc from s1.t1) select %s from c",
                      "insert into s3.out1 (with c as (select ca, cb, cc from s1.t1) select %s from c)"):
             out.append(({"sql": form % sel, "dialect": "ansi", "metadata": md, "config": {}}, sorted(exp), "target-positions"))
+    # an explicit column list always wins - here: the list is a re-ordering of exactly the target's known columns (lists naming
+    # other columns or a subset are the recorded class K-C13-1 and are replayed separately)
+    for tcols, lst, sel in ((["p", "q", "r"], ["r", "p", "q"], "ca, cb, cc"), (["p", "q"], ["q", "p"], "ca, cb"),
+                            (["p", "q", "r"], ["q", "r", "p"], "ca, cb, cc"), (["p", "q", "r"], ["p", "q", "r"], "cc, cb, ca")):
+        md = {"s3.out1": [U(c) for c in tcols], "s1.t1": [U("ca"), U("cb"), U("cc")]}
+        exp = ["s1.t1.%s>s3.out1.%s" % (c.strip(), t) for c, t in zip(sel.split(","), lst)]
+        for form in ("insert into s3.out1 (%s) select %s from s1.t1", "insert into s3.out1 (%s) (select %s from s1.t1)",
+                     "insert into s3.out1 (%s) select %s from s1.t1 p"):
+            out.append(({"sql": form % (", ".join(lst), sel), "dialect": "ansi", "metadata": md, "config": {}}, sorted(exp), "explicit-list-reordered"))
+            out.append(({"sql": form % (", ".join(lst), sel), "dialect": "ansi", "metadata": {"s3.out1": md["s3.out1"]}, "config": {}}, sorted(exp), "explicit-list-reordered"))
     return out
 
 
